@@ -23,52 +23,53 @@ open CueVerif CueVerif.Quote
 
 /-! ### quoting round trips -/
 
-/-- Every single-line form without `WithOptionalHashes` (String, Label, Bytes; with or
-without ASCII-only / graphic-only; `WithOptionalTabIndent` on a string without newline):
-`Unquote(Quote(s)) = s` for EVERY byte string s the form can represent. -/
+/-- EVERY single-line form the library exports — String, Label, Bytes; with or without
+`WithOptionalHashes` (any number of '#'), ASCII-only, graphic-only; `WithOptionalTabIndent`
+on a string without newline: `Unquote(Quote(s)) = s` for EVERY byte string s the form can
+represent.  Full strength, no side condition on s (holds since /repo a2b8800). -/
+theorem C09_roundtrip_hashes (E : Env) (hE : E.Ok) (f : Form) (hf : f.WF) (s : Bytes)
+    (hb : IsBytes s) (hr : Representable f s) (hml : f.effMultiline s = false) :
+    RoundTrips E f s :=
+  roundtrip_single_all hE f hf s hb hr hml
+
+/-- the forms without optional hashes are a special case (kept under its own name: it is
+the core theorem of DESIGN.md) -/
 theorem C09_roundtrip_single (E : Env) (hE : E.Ok) (f : Form) (hf : f.WF) (s : Bytes)
     (hb : IsBytes s) (hr : Representable f s) (hml : f.effMultiline s = false)
-    (ha : f.autoHash = false) : RoundTrips E f s :=
-  roundtrip_single hE f hf s hb hr hml ha
+    (_ha : f.autoHash = false) : RoundTrips E f s :=
+  roundtrip_single_all hE f hf s hb hr hml
 
 -- non-vacuity: a bytes form on a string with a quote, a backslash, a control character,
--- invalid UTF-8 and a non-BMP rune meets the hypotheses (and the equation evaluates)
+-- invalid UTF-8 and a non-BMP rune meets the hypotheses
 example : RoundTrips asciiEnv bytesForm [0x27, 0x5C, 0x01, 0xFF, 0xF0, 0x9F, 0x98, 0x80, 0x0A] :=
   C09_roundtrip_single asciiEnv asciiEnv_ok bytesForm (Or.inr ⟨rfl, rfl⟩) _
     (by intro b hb; simp at hb; omega) (Or.inl rfl) (by decide) rfl
-
-/-- The full-strength statement for all single-line forms INCLUDING `WithOptionalHashes`. -/
-def C09_roundtrip_hashes_stmt : Prop := roundtrip_hashes_stmt
-
-/-- It is FALSE of the code as it is: `literal.String.WithOptionalHashes().Quote("\"\"x")`
-is `#"""x"#`, which `Unquote` reads as a multi-line opener (a genuine defect; the harness
-replays the witness on the implementation, class optional-hashes-two-leading-quotes). -/
-theorem C09_roundtrip_hashes_false : ¬ C09_roundtrip_hashes_stmt := roundtrip_hashes_false
-
-/-- Outside exactly that region — s does not begin with two quote characters followed by
-something other than '#' — every single-line form, with or without optional hashes, with
-any number of '#', round-trips. -/
-theorem C09_roundtrip_hashes_partial (E : Env) (hE : E.Ok) (f : Form) (hf : f.WF) (s : Bytes)
-    (hb : IsBytes s) (hr : Representable f s) (hml : f.effMultiline s = false)
-    (h2 : startsTwoQuotes f.quote s = false) : RoundTrips E f s :=
-  roundtrip_hashes_partial hE f hf s hb hr hml h2
-
-/-- With the one-line repair of `singleLineHashCount` (return 0 when s starts with two
-quote characters; `Quote.singleLineHashCountFixed`) the full statement holds. -/
-theorem C09_roundtrip_hashes_fixed (E : Env) (hE : E.Ok) (f : Form) (hf : f.WF) (s : Bytes)
-    (hb : IsBytes s) (hr : Representable f s) (hml : f.effMultiline s = false) :
-    RoundTripsFixed E f s :=
-  roundtrip_hashes_fixed hE f hf s hb hr hml
-
--- non-vacuity: an optional-hashes form on a string with a quote followed by hashes and a
--- backslash followed by a hash: three hashes are chosen and the literal reads back
+-- an optional-hashes form on a string with a quote followed by hashes and a backslash
+-- followed by a hash (three hashes are chosen), and on `""x`, the witness of the old defect
 example : RoundTrips asciiEnv stringForm.withOptionalHashes [0x61, 0x22, 0x23, 0x23, 0x5C, 0x23] :=
-  C09_roundtrip_hashes_partial asciiEnv asciiEnv_ok _ (Or.inl ⟨rfl, rfl⟩) _
-    (by intro b hb; simp at hb; omega) (Or.inr (by simp [validUTF8, decodeFirst])) (by decide) (by decide)
--- and the repaired variant on the witness of the defect, `""x`
-example : RoundTripsFixed asciiEnv stringForm.withOptionalHashes [0x22, 0x22, 0x78] :=
-  C09_roundtrip_hashes_fixed asciiEnv asciiEnv_ok _ (Or.inl ⟨rfl, rfl⟩) _
+  C09_roundtrip_hashes asciiEnv asciiEnv_ok _ (Or.inl ⟨rfl, rfl⟩) _
     (by intro b hb; simp at hb; omega) (Or.inr (by simp [validUTF8, decodeFirst])) (by decide)
+example : RoundTrips asciiEnv stringForm.withOptionalHashes [0x22, 0x22, 0x78] :=
+  C09_roundtrip_hashes asciiEnv asciiEnv_ok _ (Or.inl ⟨rfl, rfl⟩) _
+    (by intro b hb; simp at hb; omega) (Or.inr (by simp [validUTF8, decodeFirst])) (by decide)
+
+/-- History, about the clearly named OLD variant `quoteOld` (= the code before /repo
+a2b8800, no longer tied to the tree): the same full statement … -/
+def C09_roundtrip_hashes_old_stmt : Prop := roundtrip_hashes_old_stmt
+/-- … was FALSE (`""x` → `#"""x"#`, read as a multi-line opener) … -/
+theorem C09_roundtrip_hashes_old_false : ¬ C09_roundtrip_hashes_old_stmt := roundtrip_hashes_old_false
+/-- … and true exactly outside `startsTwoQuotes`. -/
+theorem C09_roundtrip_hashes_old_partial (E : Env) (hE : E.Ok) (f : Form) (hf : f.WF) (s : Bytes)
+    (hb : IsBytes s) (hr : Representable f s) (hml : f.effMultiline s = false)
+    (h2 : startsTwoQuotes f.quote s = false) : RoundTripsOld E f s :=
+  roundtrip_hashes_old_partial hE f hf s hb hr hml h2
+
+/-- `\u`/`\U` escapes decode to a rune ≤ MaxRune or are a syntax error: an overflowing
+`\U` can no longer collide with the loop's sentinels or panic (since /repo 4627158). -/
+theorem C09_unquote_U_escape_total (q : QuoteInfo) (e : Nat) (he : e = 0x75 ∨ e = 0x55) (t : Bytes) :
+    (∃ v t', unquoteEscape q e t = .ok (.char v true, t') ∧ v ≤ 0x10FFFF) ∨
+    unquoteEscape q e t = .error .syntax :=
+  unquoteEscape_U_total q e he t
 
 /-- Multi-line forms (`WithTabIndent(n)`, `WithOptionalTabIndent(n)` on a string with a
 newline), incl. CR, trailing backslash, `"""` followed by '#' runs.  -- OPEN: believed true
@@ -83,10 +84,6 @@ multi-line, optional hashes) and every input. -/
 theorem C09_ascii_only (E : Env) (f : Form) (hf : f.WF) (ha : f.asciiOnly = true) (s : Bytes) :
     IsAscii (quote E f s) :=
   quote_ascii f hf ha s
-
-theorem C09_ascii_only_fixed (E : Env) (f : Form) (hf : f.WF) (ha : f.asciiOnly = true) (s : Bytes) :
-    IsAscii (quoteFixed E f s) :=
-  quoteFixed_ascii f hf ha s
 
 -- non-vacuity: a multi-line ASCII-only form on non-ASCII input
 example : IsAscii (quote asciiEnv (stringForm.withASCIIOnly.withTabIndent 1) [0xC3, 0xA9, 0x0A, 0x62]) :=
